@@ -198,6 +198,13 @@ def setUserPerm (s : State) (uid : Int) (rec : List Nat) (perm : Nat) : State ×
   | .ok .none => (r.1, .ok (Int.ofNat perm, .none))
   | .ok e => (r.1, .ok (0, e))
 
+/-- `ptt.killUser(uid, _)` as far as `.PASSWDS` and SHM go (the account-expiry path: `tryCleanUser` →
+`checkAndExpireAccount` → `killUser`): `passwdSyncUpdate(uid, &UserecRaw{})` — the record is cleared but its Money
+is first taken from SHM, which is not touched.  Which accounts expire is a matter of the clock and of the account
+model (C03); the harness observes it. -/
+def killUser (s : State) (uid : Int) : State × M Err :=
+  passwdSyncUpdate s uid (List.replicate RSZ 0)
+
 /-! ### registration: the last steps of `ptt.SetupNewUser` (after the slot `uid` was chosen and `SetUserID` done)
 
 The ORDER of the calls is the one the translator read from the source (`Gen/Reg.lean`); `user.Money` is a field
